@@ -4,6 +4,7 @@
    coq/gen/ArchiveinfoPrims.v, regenerated from py7zr/archiveinfo.py on every run. *)
 From P7 Require Import Prelude PyPrims Number NumberGen BoolVec BoolVecGen.
 From P7gen Require Import ArchiveinfoPrims.
+From P7 Require Header HeaderGenPrims.
 Open Scope Z_scope.
 
 (* NUMBER: every value of 0..2^64-1 is written in 1..9 bytes that both py7zr's reader and the
@@ -62,3 +63,40 @@ Print Assumptions C17_bits_to_bytes.
 Example C17_number_example : write_uint64 (2^56) = Ok [255; 0; 0; 0; 0; 0; 0; 0; 1]
   /\ read_uint64 [255; 0; 0; 0; 0; 0; 0; 0; 1; 7] = Ok (2^56, [7]).
 Proof. vm_compute. split; reflexivity. Qed.
+
+(* ---- third wave (stage 1): the generated primitives ARE the primitives of the hand model Header.v, on all inputs.
+   Every theorem over Header.v (header_roundtrip, writer_conforms, assign_conforms ...) is about rd_number / wr_number /
+   rd_boolean / wr_boolean / rd_fixed / wr_fixed; these equalities carry them over to the code as translated on this run.
+   wf_bytes: the input is a byte string (every element in 0..255).  rd_boolean's resource guard `lim` (Err EFuel when a
+   count exceeds it) has no counterpart in the code: the equality holds whenever the model does not answer EFuel. ---- *)
+Theorem C17_gen_read_uint64_is_rd_number : forall bs, wf_bytes bs = true -> read_uint64 bs = Header.rd_number bs.
+Proof. exact HeaderGenPrims.gen_read_uint64_rd_number. Qed.
+Print Assumptions C17_gen_read_uint64_is_rd_number.
+
+Theorem C17_gen_write_uint64_is_wr_number : forall v, write_uint64 v = Header.wr_number v.
+Proof. exact HeaderGenPrims.gen_write_uint64_wr_number. Qed.
+Print Assumptions C17_gen_write_uint64_is_wr_number.
+
+Theorem C17_gen_read_boolean_is_rd_boolean : forall lim count c bs, wf_bytes bs = true ->
+  Header.rd_boolean lim count c bs <> Err EFuel -> read_boolean bs count c = Header.rd_boolean lim count c bs.
+Proof. exact HeaderGenPrims.gen_read_boolean_rd_boolean. Qed.
+Print Assumptions C17_gen_read_boolean_is_rd_boolean.
+
+Theorem C17_gen_write_boolean_is_wr_boolean : forall l c, write_boolean l c = Ok (Header.wr_boolean l c).
+Proof. exact HeaderGenPrims.gen_write_boolean_wr_boolean. Qed.
+Print Assumptions C17_gen_write_boolean_is_wr_boolean.
+
+Theorem C17_gen_fixed_width_are_model : forall v bs,
+  write_uint32 v = Header.wr_fixed 4 v /\ write_real_uint64 v = Header.wr_fixed 8 v /\
+  read_uint32 bs = (do (x, r) <- Header.rd_fixed 4 bs; Ok ((x, firstn 4 bs), r)) /\
+  read_real_uint64 bs = (do (x, r) <- Header.rd_fixed 8 bs; Ok ((x, firstn 8 bs), r)).
+Proof.
+  intros v bs. repeat split; [apply HeaderGenPrims.gen_write_uint32_wr_fixed | apply HeaderGenPrims.gen_write_real_uint64_wr_fixed
+                             | apply HeaderGenPrims.gen_read_uint32_rd_fixed | apply HeaderGenPrims.gen_read_real_uint64_rd_fixed].
+Qed.
+Print Assumptions C17_gen_fixed_width_are_model.
+
+(* the two hand models of a packed bit vector (BoolVec.v, Header.v) are the same function *)
+Theorem C17_bits_enc_is_wr_bits : forall l, BoolVec.bits_enc l = Header.wr_bits l.
+Proof. exact HeaderGenPrims.bits_enc_wr_bits. Qed.
+Print Assumptions C17_bits_enc_is_wr_bits.
